@@ -412,6 +412,15 @@ func build(d map[int]bool, appendOrder int) built {
 			"x": &graphql.Field{Type: graphql.String, Args: graphql.FieldConfigArgument{"p": &graphql.ArgumentConfig{Type: graphql.Int}}}, "s": &graphql.Field{Type: graphql.String}}})
 		UZ := graphql.NewUnion(graphql.UnionConfig{Name: "UZ", Types: []*graphql.Object{Z, P}, ResolveType: func(p graphql.ResolveTypeParams) *graphql.Object { return Z }})
 		b.extra = []graphql.Type{UZ}
+	case 4:
+		// an implementer of K whose covariant fields have a type that is itself new: XN
+		// becomes a possible type of I only through this append
+		XN := graphql.NewObject(graphql.ObjectConfig{Name: "XN", Interfaces: []*graphql.Interface{I}, Fields: graphql.Fields{
+			"x": &graphql.Field{Type: graphql.String, Args: graphql.FieldConfigArgument{"p": &graphql.ArgumentConfig{Type: graphql.Int}}}, "s": &graphql.Field{Type: graphql.String}}})
+		Y2 := graphql.NewObject(graphql.ObjectConfig{Name: "Y2", Interfaces: []*graphql.Interface{K}, Fields: graphql.Fields{
+			"ki": &graphql.Field{Type: XN}, "ko": &graphql.Field{Type: O}, "kn": &graphql.Field{Type: graphql.NewNonNull(graphql.String)}, "kq": &graphql.Field{Type: graphql.String},
+			"kx": &graphql.Field{Type: graphql.NewNonNull(O)}, "ky": &graphql.Field{Type: graphql.NewNonNull(XN)}, "kl": &graphql.Field{Type: graphql.NewNonNull(graphql.NewList(graphql.NewNonNull(graphql.String)))}}})
+		b.extra = []graphql.Type{Y2}
 	}
 	if on("a nil type is appended") {
 		b.extra = append(b.extra, nil)
@@ -809,7 +818,7 @@ func execute(x *explore.X) (out outcome) {
 			out.desc = append(out.desc, df.name)
 		}
 	}
-	appendOrder := x.Choose(4, "append")
+	appendOrder := x.Choose(5, "append")
 	if appendOrder > 0 {
 		out.desc = append(out.desc, fmt.Sprintf("append order %d", appendOrder))
 	}
@@ -868,7 +877,7 @@ func execute(x *explore.X) (out outcome) {
 
 func run(c *core.Ctx) {
 	k := c.Pick(2, 3)
-	c.R.Rule = "case = base configuration (objects, two interfaces with covariant fields, union, enum, scalar, input object, three roots) + every combination of <= k of 63 configuration defects/variants (duplicate and illegal names of every kind, empty sets, nil members / entries / types / field, argument, input-field and enum-value configurations, typed nil pointers in type positions and as a root, custom directives with nil / output-typed / untyped arguments and illegal names, a nil directive, nil and typed-nil appended types, every way of mis-implementing an interface incl. argument subtypes and list-vs-non-list, errors parked on roots and union members, NonNull of NonNull, types in wrong positions, thunks, cycles, missing root, duplicates) x 4 append histories; non-trivial = at least one defect"
+	c.R.Rule = "case = base configuration (objects, two interfaces with covariant fields, union, enum, scalar, input object, three roots) + every combination of <= k of 63 configuration defects/variants (duplicate and illegal names of every kind, empty sets, nil members / entries / types / field, argument, input-field and enum-value configurations, typed nil pointers in type positions and as a root, custom directives with nil / output-typed / untyped arguments and illegal names, a nil directive, nil and typed-nil appended types, every way of mis-implementing an interface incl. argument subtypes and list-vs-non-list, errors parked on roots and union members, NonNull of NonNull, types in wrong positions, thunks, cycles, missing root, duplicates) x 5 append histories; non-trivial = at least one defect"
 	c.R.Assumptions = []string{"M-schema: the consistency predicate of the property evaluated through TypeMap, Fields, Interfaces, Types, Values, PossibleTypes, IsPossibleType", "Go toolchain"}
 	c.R.Bounds["defects"] = k
 	e := c.Explorer(k)
